@@ -25,7 +25,12 @@ variable {K : Type} [Field K] [DecidableEq K]
 
 mutual
 /-- **ser_thevenin**: for every tree of any depth and width, the set of (v, i) pairs the network
-    admits is exactly the line v = Voc + Z·i with Z and Voc as `impedance` / `Voc` compute them. -/
+    admits is exactly the line v = Voc + Z·i with Z and Voc as `impedance` / `Voc` compute them.
+    (Remark: `Net.voc (.par as) = ΣIsc·(1/ΣY)` and `Net.isc (.ser as) = ΣVoc·(1/ΣZ)` are NOT Lcapy's own
+    computation -- Lcapy obtains `Par.Voc` / `Ser.Isc` from `self.cct`, i.e. nodal analysis of the generated
+    netlist -- but the value that analysis must return; for those two cases this theorem certifies the model's
+    definition, and the code route is covered by `C07.netlist_agrees_with_algebra` (Props/C07Netlist.lean) plus
+    the correspondence of the harness with the real `cct` route.) -/
 theorem ser_thevenin (s : K) : (n : Net K) → n.tOK s = true → n.icOK s = true →
     IsThevenin s n (n.imp s) (n.voc s)
   | .leaf l, h, _ => fun v i => by simpa [Net.rel, Net.imp, Net.voc] using leaf_thev s l (by simpa [Net.tOK] using h) v i
